@@ -73,6 +73,7 @@ type c20Viol struct {
 	Harness  string        `json:"harness"`
 	Match    *c20MatchCase `json:"match_case,omitempty"`
 	XList    *c20XlCase    `json:"xlist_case,omitempty"`
+	RList    *c20RlCase    `json:"rlist_case,omitempty"`
 	Via      string        `json:"via,omitempty"`
 	Inverted bool          `json:"inverted,omitempty"`
 	Short    bool          `json:"shorter_than_values,omitempty"`
@@ -137,6 +138,7 @@ func c20Rules(t2 int) (Rules, error) {
 
 type c20Stats struct {
 	executed, steps, flips, unbans, casesWithBan, casesWithUnban, drift, dumpDrift int
+	rlCases                                                                        int
 	xlCases                                                                        int
 	matchCases                                                                     int
 	determined                                                                     int
@@ -509,6 +511,63 @@ func c20RunXl(c *c20XlCase, ctl *metric.Ctl, st *c20Stats) {
 	st.xlCases++
 }
 
+// ---- rule lists: which rule governs a record
+
+type c20RlCase struct {
+	G     int     `json:"g"`
+	Rules [][]int `json:"rules"` // per rule: its condition matches the record, its threshold
+	Gov   int     `json:"gov"`   // declarative: threshold of the first matching rule, else the global one
+	Mgov  int     `json:"mgov"`  // transcription
+}
+
+func c20RunRl(c *c20RlCase, ctl *metric.Ctl, st *c20Stats) {
+	defer func() {
+		if r := recover(); r != nil {
+			st.add(&c20Viol{Kind: "panic", RList: c, Panic: fmt.Sprint(r), Harness: "antispam-rlist"})
+		}
+	}()
+	var rules Rules
+	content := "ev"
+	for i, r := range c.Rules {
+		tok := fmt.Sprintf("<%d>", i+1)
+		chk, err := doif.NewFromMap(map[string]any{"op": "contains", "field": "event", "values": []any{tok}})
+		if err != nil {
+			panic(err)
+		}
+		rules = append(rules, Rule{Name: fmt.Sprintf("c20r%d", i+1), Threshold: r[1], DoIfChecker: chk})
+		if r[0] == 1 {
+			content += " " + tok
+		}
+	}
+	a := NewAntispammer(&Options{MaintenanceInterval: time.Second, Threshold: c.G, UnbanIterations: 4, Rules: rules,
+		Logger: zap.NewNop(), MetricsController: ctl})
+	now := time.Date(2024, 1, 2, 3, 4, 5, 0, time.UTC)
+	// an arrival history up to (and one past) the largest threshold
+	for k := 1; k <= 4; k++ {
+		verdict := a.IsSpam("1", "c20src", false, []byte(content), now, nil)
+		st.steps++
+		// the statement: never refused under an unlimited threshold; not banned before the governing threshold is reached
+		if c.Gov == -1 || (c.Gov >= 1 && k < c.Gov) {
+			st.determined++
+			if verdict {
+				v := &c20Viol{Kind: "spam_from_unbannable_source", RList: c, Step: k, Win: k, Thr: c.Gov, Rules: true, Harness: "antispam-rlist"}
+				if c.Gov == -1 {
+					v.Kind, v.ExcKind = "exception_dropped", "unlimited_rule"
+				}
+				st.add(v)
+			}
+		}
+		if verdict != (c.Mgov == 0 || (c.Mgov >= 1 && k >= c.Mgov)) {
+			st.drift++
+			if len(st.driftSample) < 5 {
+				b, _ := json.Marshal(c)
+				st.driftSample = append(st.driftSample, fmt.Sprintf("rule list, record %d: real verdict=%v, model governing threshold %d; case %s", k, verdict, c.Mgov, b))
+			}
+		}
+	}
+	st.rlCases++
+}
+
 func TestVerifC20(t *testing.T) {
 	in := os.Getenv("VERIF_CASES")
 	out := os.Getenv("VERIF_OUT")
@@ -534,6 +593,14 @@ func TestVerifC20(t *testing.T) {
 				c := &c20Case{}
 				if err := json.Unmarshal(ln, c); err != nil {
 					panic(fmt.Sprintf("bad case line: %v", err))
+				}
+				if c.Part == "rlist" {
+					x := &c20RlCase{}
+					if err := json.Unmarshal(ln, x); err != nil {
+						panic(fmt.Sprintf("bad rule-list case line: %v", err))
+					}
+					c20RunRl(x, ctl, stats[wi])
+					continue
 				}
 				if c.Part == "xlist" {
 					x := &c20XlCase{}
@@ -575,6 +642,7 @@ func TestVerifC20(t *testing.T) {
 		tot.determined += s.determined
 		tot.matchCases += s.matchCases
 		tot.xlCases += s.xlCases
+		tot.rlCases += s.rlCases
 		for _, d := range s.driftSample {
 			if len(tot.driftSample) < 5 {
 				tot.driftSample = append(tot.driftSample, d)
@@ -598,7 +666,7 @@ func TestVerifC20(t *testing.T) {
 	res := map[string]interface{}{
 		"executed": tot.executed, "steps": tot.steps, "bans": tot.flips, "unbans": tot.unbans,
 		"cases_with_ban": tot.casesWithBan, "cases_with_unban": tot.casesWithUnban,
-		"determined": tot.determined, "match_cases": tot.matchCases, "xlist_cases": tot.xlCases, "drift": tot.drift, "dump_drift": tot.dumpDrift,
+		"determined": tot.determined, "match_cases": tot.matchCases, "xlist_cases": tot.xlCases, "rlist_cases": tot.rlCases, "drift": tot.drift, "dump_drift": tot.dumpDrift,
 		"drift_samples": tot.driftSample, "violations": all, "violation_counts": tot.counts,
 	}
 	b, _ := json.Marshal(res)
